@@ -271,6 +271,7 @@ class CSSMediaRule(cssrule.CSSRuleRules):
                 for r in oldCssRules:
                     if r not in self._cssRules:
                         r._parentRule = None
+                        r._parent = None
             else:
                 self._media = oldMedia
                 self._cssRules = oldCssRules
@@ -306,6 +307,7 @@ class CSSMediaRule(cssrule.CSSRuleRules):
             a :class:`~cssutils.stylesheets.MediaList` or string
         """
         self._checkReadonly()
+        old = getattr(self, '_media', None)
         if isinstance(media, str):
             self._media = cssutils.stylesheets.MediaList(
                 mediaText=media, parentRule=self
@@ -313,6 +315,9 @@ class CSSMediaRule(cssrule.CSSRuleRules):
         else:
             media._parentRule = self
             self._media = media
+        if old is not None and old is not self._media:
+            # the replaced list is no part of this rule anymore
+            old._parentRule = None
 
         # NOT IN @media seq at all?!
 
